@@ -437,3 +437,18 @@ def meaningful_leaves(exp: typing.Any, act: typing.Any) -> typing.List[typing.An
         return [x for n, e in exp[2] for x in meaningful_leaves(e, am[n])]
     name, e = exp[3][0]
     return [act[2]] + meaningful_leaves(e, dict(act[3])[name])
+
+
+def validity_preconditions(v: typing.Any) -> typing.List[typing.Any]:
+    """every count within capacity and every union tag valid (objects that a C++ / Python value can actually be)"""
+    k, t = v[0], v[1]
+    if k == "prim":
+        return []
+    if k in ("arr", "bits"):
+        out = [z3.ULE(v[3], t.capacity)] if v[3] is not None else []
+        if k == "arr":
+            out += [c for e in v[2] for c in validity_preconditions(e)]
+        return out
+    if k == "struct":
+        return [c for _, e in v[2] for c in validity_preconditions(e)]
+    return [z3.ULT(v[2], len(v[3]))] + [c for _, e in v[3] for c in validity_preconditions(e)]
